@@ -32,6 +32,7 @@ structure Pool where
   order : Nat := 0            -- `LiftBanOrder`
   flag : Bool := false        -- `AutoBanFlag`
   banUnits : Nat := 0         -- the last ban length set by `getConn`, in retry-timeout units (0 = never set)
+  banPassed : Bool := false   -- `LiftBanTime.Before(now)`: the ban has run out (environment op `expire`)
   deriving Repr
 
 structure St where
@@ -105,6 +106,12 @@ def setIsSlave (s : St) (p : Nat) (b : Bool) : St :=
 /-- the peer of connection `c` went away (`closeConn`): the pool is not told, `Get` finds out -/
 def lose (s : St) (c : Nat) : St := { s with conns := s.conns.modify c (fun x => { x with opened := false }) }
 
+/-- time passes: the ban of pool `p` runs out -/
+def expire (s : St) (p : Nat) : St :=
+  match s.pools[p]? with
+  | none => s
+  | some pl => { s with pools := s.pools.set p { pl with banPassed := true } }
+
 def setDial (s : St) (p : Nat) (ok : Bool) : St :=
   match s.pools[p]? with
   | none => s
@@ -112,16 +119,22 @@ def setDial (s : St) (p : Nat) (ok : Bool) : St :=
 
 /-- the bookkeeping of `getConn` after `pool.Get()` returned nil -/
 def banFail (pl : Pool) : Pool :=
-  { pl with banUnits := 2 ^ pl.order, order := if pl.order ≥ 5 then 5 else pl.order + 1, flag := true }
+  { pl with banUnits := 2 ^ pl.order, order := if pl.order ≥ 5 then 5 else pl.order + 1, flag := true,
+            banPassed := false }
 
 def updPool (s : St) (p : Nat) (f : Pool → Pool) : St :=
   match s.pools[p]? with
   | none => s
   | some pl => setPool s p (f pl)
 
-/-- which pool `route` names: the replica for a read when there is one (its flag is cleared: the ban has not run
-    out), the master otherwise -/
-def routePool (s : St) (isRead : Bool) : Nat := if isRead && decide (s.pools.length > 1) then 1 else 0
+/-- which pool `route` names: the replica for a read when there is one - unless it is flagged and its ban HAS run
+    out: then `route` skips it (until the health monitor clears the flag) and the read goes to the master; a
+    flagged replica whose ban has not run out is picked up again and its flag cleared. (This is the code; its log
+    messages say the opposite, see DESIGN §9.) -/
+def routePool (s : St) (isRead : Bool) : Nat :=
+  match s.pools[1]? with
+  | some rp => if isRead && !(rp.flag && rp.banPassed) then 1 else 0
+  | none => 0
 
 /-- `getConn`: route, `pool.Get()`, ban bookkeeping. Returns (state, connection, retry) -/
 def getConn (s : St) (isRead : Bool) : St × Option Nat × Bool :=
@@ -177,6 +190,7 @@ inductive Op
   | lose (c : Nat)
   | vanish (c : Nat)
   | setDial (p : Nat) (ok : Bool)
+  | expire (p : Nat)
   | release (p : Nat)
   | close (p : Nat)
   | setSlave (p : Nat) (b : Bool)
@@ -188,6 +202,7 @@ def step (s : St) : Op → St
   | .lose c => lose s c
   | .vanish c => vanish s c
   | .setDial p ok => setDial s p ok
+  | .expire p => expire s p
   | .release p => release s p
   | .close p => close s p
   | .setSlave p b => setIsSlave s p b
